@@ -20,6 +20,7 @@ import SwV.Lemmas.C17b
 import SwV.Lemmas.C17c
 import SwV.Lemmas.C17d
 import SwV.Lemmas.C17e
+import SwV.Lemmas.C17f
 import SwV.Gen.C17
 namespace SwV.Props.C17
 open SwV.Model.C17 SwV.Spec.C17 SwV.Lemmas.C17
@@ -771,6 +772,138 @@ example : ∀ p, 0 ≤ p → p < 0 + 2 → ∃ c ∈ flatten [.data ⟨0, 2, 1, 
   intro p _ h; exact ⟨⟨0, 2, 1, 1, 1⟩, by simp [flatten], by unfold covers; simp; omega⟩
 
 /-! ### bridges to the regenerated source facts (T1) -/
+
+/-! ### read windows and file size after doMaybeManifestize (judge clauses `doMaybeManifestize/window-content-changed`,
+`…/window-wrong-length`, `…/file-size-changed`)
+
+A whole-file resolution overlaps every manifest, so it cannot see a manifest whose advertised extent is narrower than its
+chunks; a WINDOW beyond the advertised end skips the manifest (the filter of ResolveChunkManifest).  The theorems below say
+that for the extent `mkManifest` writes — [min offset, max stop) of the batch — every bounded window of the manifestized
+file still reads the content of the ORIGINAL chunks and TotalSize is unchanged; the judges are run by the driver on the
+real code's windows (op `mw`). -/
+
+/-- WINDOW THEOREM after manifestize: for every tree, batch size, bounded window and admissible order, StreamContent over the
+    manifestized list writes exactly `size` bytes, each a legal content byte of the ORIGINAL chunks -/
+theorem streamContent_after_manifestize (data : Nat → Nat → Nat) (k base : Nat) (ns : List Node) (hw : wellFormed ns = true)
+    (offset size : Nat) (hsz : size ≠ maxInt64) (order : List Chunk)
+    (ho : IsOrderOf order offset (offset + size) (manifestize k base ns)) :
+    let out := streamLoop data (streamStop offset size) (viewsOfOrder order offset size) offset
+    out.length = size ∧ ∀ i, i < size → ByteOk data (flatten ns) (offset + i) (out.getD i 0) := by
+  have hp := manifestize_flatten k base ns
+  have h := streamContent_eq_overlay data (manifestize k base ns) (hp.2 hw) offset size hsz order ho
+  intro out
+  exact ⟨h.2.1, fun i hi => (manifestize_preserves data k base ns _ _).1 (h.2.2 i hi)⟩
+
+example : IsOrderOf (sortChunks (resolveList 20 (20 + 1) (manifestize 2 900 [.data ⟨10, 10, 1, 1, 1⟩, .data ⟨0, 30, 2, 2, 2⟩])))
+    20 (20 + 1) (manifestize 2 900 [.data ⟨10, 10, 1, 1, 1⟩, .data ⟨0, 30, 2, 2, 2⟩]) := model_order _ _ _
+
+/-- …hence the judge of a window after manifestize accepts every output of the model -/
+theorem manifestize_window_judge (data : Nat → Nat → Nat) (k base : Nat) (ns : List Node) (hw : wellFormed ns = true)
+    (offset size : Nat) (hsz : size ≠ maxInt64) :
+    manifestWindowJudge data (flatten ns) offset size (streamContent data (manifestize k base ns) offset size) = none := by
+  have h := streamContent_after_manifestize data k base ns hw offset size hsz _ (model_order offset (offset + size) _)
+  have hv : streamContent data (manifestize k base ns) offset size =
+      streamLoop data (streamStop offset size) (viewsOfOrder (sortChunks (resolveList offset (offset + size) (manifestize k base ns))) offset size) offset := by
+    unfold streamContent; rw [viewFromChunks_eq]
+  unfold manifestWindowJudge
+  rw [hv, if_neg (by simpa using h.1), if_pos]
+  rw [List.all_eq_true]
+  intro i hi
+  have hi' : i < size := List.mem_range.1 hi
+  have hb := h.2 i hi'
+  have hlen : i < (streamLoop data (streamStop offset size) (viewsOfOrder (sortChunks (resolveList offset (offset + size) (manifestize k base ns))) offset size) offset).length := by
+    rw [h.1]; exact hi'
+  rw [List.getD_eq_getElem?_getD, List.getElem?_eq_getElem hlen] at hb ⊢
+  exact byteOk_of_ByteOk data _ _ _ hb
+
+/-- the seeded witness shape: batch [10,20) then [0,30) (the later chunk widens the extent on both sides), window [20,21) -/
+example : manifestWindowJudge (fun f i => f * 100 + i + 1) (flatten [.data ⟨10, 10, 1, 1, 1⟩, .data ⟨0, 30, 2, 2, 2⟩]) 20 1
+    (streamContent (fun f i => f * 100 + i + 1) (manifestize 2 900 [.data ⟨10, 10, 1, 1, 1⟩, .data ⟨0, 30, 2, 2, 2⟩]) 20 1) = none :=
+  manifestize_window_judge _ 2 900 _ (by simp [wellFormed]) 20 1 (by decide)
+
+/-- the judge is not vacuous: a manifest advertising [0,20) for that batch (what an `else if` in the min/max scan produces)
+    is skipped by the window [20,21), which then reads a zero instead of the newest chunk's byte -/
+theorem manifest_narrow_extent_caught :
+    manifestWindowJudge (fun f i => f * 100 + i + 1) [⟨10, 10, 1, 1, 1⟩, ⟨0, 30, 2, 2, 2⟩] 20 1
+      (streamContent (fun f i => f * 100 + i + 1) [.manifest 0 20 900 [.data ⟨10, 10, 1, 1, 1⟩, .data ⟨0, 30, 2, 2, 2⟩]] 20 1)
+      = some "doMaybeManifestize/window-content-changed" := by
+  have hr : resolveList 20 (20 + 1) [.manifest 0 20 900 [.data ⟨10, 10, 1, 1, 1⟩, .data ⟨0, 30, 2, 2, 2⟩]] = [] := by
+    simp [resolveList, resolveNode, outside]
+  have hsrt : sortChunks [] = [] := List.mergeSort_of_pairwise (by decide)
+  unfold streamContent viewFromChunks nonOverlapping
+  rw [hr, hsrt]
+  decide
+
+theorem advertisedSize_append (a b : List Node) : advertisedSize (a ++ b) = max (advertisedSize a) (advertisedSize b) := by
+  induction a with
+  | nil => simp [advertisedSize]
+  | cons n a ih =>
+    cases n with
+    | data c => simp only [List.cons_append, advertisedSize, ih]; omega
+    | manifest o s f ch => simp only [List.cons_append, advertisedSize, ih]; omega
+
+theorem advertisedSize_split : ∀ (ns : List Node),
+    advertisedSize ns = max (advertisedSize (ns.filter isManifest)) (advertisedSize ((ns.filterMap nodeChunk).map Node.data))
+  | [] => by simp [advertisedSize]
+  | .data c :: ns => by
+    simp only [List.filter_cons, isManifest, Bool.false_eq_true, if_false, List.filterMap_cons, nodeChunk, List.map_cons, advertisedSize]
+    rw [advertisedSize_split ns]; omega
+  | .manifest o s f ch :: ns => by
+    simp only [List.filter_cons, isManifest, if_true, List.filterMap_cons, nodeChunk, advertisedSize]
+    rw [advertisedSize_split ns]; omega
+
+theorem foldl_max_eq_advertised (l : List Chunk) : ∀ (init : Nat),
+    l.foldl (fun m c => max m c.stop) init = max init (advertisedSize (l.map Node.data)) := by
+  induction l with
+  | nil => intro init; simp [advertisedSize]
+  | cons d l ih =>
+    intro init
+    simp only [List.foldl_cons, List.map_cons, advertisedSize, ih]
+    have : d.stop = d.off + d.size := rfl
+    omega
+
+/-- the manifest of a non-empty batch advertises exactly the end of the batch -/
+theorem mkManifest_advertised (fid : Nat) (batch : List Chunk) (hb : batch ≠ []) (rest : List Node) :
+    advertisedSize (mkManifest fid batch :: rest) = max (advertisedSize (batch.map Node.data)) (advertisedSize rest) := by
+  unfold mkManifest
+  simp only [advertisedSize]
+  obtain ⟨c, hc⟩ := List.exists_mem_of_ne_nil batch hb
+  have h1 := (foldl_min_le batch maxInt64).2 c hc
+  have h2 := (le_foldl_max batch 0).2 c hc
+  have h3 : c.stop = c.off + c.size := rfl
+  have h4 := foldl_max_eq_advertised batch 0
+  omega
+
+theorem batchLoop_advertised (k : Nat) (hk : 1 ≤ k) : ∀ (fuel fid : Nat) (ds : List Chunk),
+    advertisedSize (batchLoop k fuel fid ds) = advertisedSize (ds.map Node.data)
+  | 0, _, ds => by simp [batchLoop]
+  | fuel + 1, fid, ds => by
+    unfold batchLoop
+    split
+    · rename_i hle
+      have hne : ds.take k ≠ [] := by
+        intro h
+        have := congrArg List.length h
+        simp only [List.length_take, List.length_nil] at this
+        omega
+      rw [mkManifest_advertised fid _ hne, batchLoop_advertised k hk fuel (fid + 1) (ds.drop k), ← advertisedSize_append,
+        ← List.map_append, List.take_append_drop]
+    · rfl
+
+/-- SIZE THEOREM: for every tree and every merge factor ≥ 1, doMaybeManifestize leaves TotalSize (the largest advertised
+    end among the top-level chunks) unchanged -/
+theorem manifestize_keeps_size (k base : Nat) (hk : 1 ≤ k) (ns : List Node) :
+    manifestSizeJudge (advertisedSize ns) (advertisedSize (manifestize k base ns)) = none := by
+  unfold manifestSizeJudge manifestize
+  rw [if_pos]
+  rw [advertisedSize_append, batchLoop_advertised k hk, ← advertisedSize_split]
+
+example : advertisedSize (manifestize 2 900 [.data ⟨10, 10, 1, 1, 1⟩, .data ⟨0, 30, 2, 2, 2⟩]) = 30 := by decide
+
+/-- …and the size judge is not vacuous: the narrow manifest of the witness shrinks the file from 30 to 20 bytes -/
+example : manifestSizeJudge (advertisedSize [.data ⟨10, 10, 1, 1, 1⟩, .data ⟨0, 30, 2, 2, 2⟩])
+    (advertisedSize [.manifest 0 20 900 [.data ⟨10, 10, 1, 1, 1⟩, .data ⟨0, 30, 2, 2, 2⟩]]) = some "doMaybeManifestize/file-size-changed" := by
+  decide
 
 /-- the `min`/`max` helpers of filechunks.go (used by the window filter, the view clipping and the reader)
     are the minimum/maximum the model uses -/
